@@ -595,6 +595,71 @@ def itemParenFree : GItem → Bool
   | .structDef _ _ ms => ms.all fun m => stmtsParenFree m.body
   | _ => true
 
+/-! ## the subset of `print_expr_roundtrip` (Props/GoPrint.lean) -/
+
+def numOK (text : String) : Bool :=
+  match text.toList with
+  | '-' :: rest => !(String.ofList rest).isEmpty
+  | _ => !text.isEmpty
+
+mutual
+/-- the operator subset of this theorem (names and literal texts not empty: `RcDoc::text("")` prints no token) -/
+def inSubset : GExpr → Bool
+  | .nil _ => true
+  | .bool _ => true
+  | .var x _ => !x.isEmpty
+  | .int text _ => numOK text
+  | .float bits _ => numOK (goFloatLiteral bits.toNat)
+  | .str _ => true
+  | .call _ f args => inSubset f && inSubsetList args
+  | .un _ _ e => inSubset e
+  | .bin _ _ l r => inSubset l && inSubset r
+  | .field f _ o => !f.isEmpty && inSubset o
+  | .index _ a i => inSubset a && inSubset i
+  | _ => false
+def inSubsetList : List GExpr → Bool
+  | [] => true
+  | e :: es => inSubset e && inSubsetList es
+end
+
+
+mutual
+/-- the expressions a statement holds directly (the roots the round-trip theorem is applied to) -/
+def stmtRoots : GStmt → List GExpr
+  | .expr e => [e]
+  | .go c => [c]
+  | .varDecl _ _ (some v) => [v]
+  | .varDecl _ _ none => []
+  | .assign _ v => [v]
+  | .fieldAssign t v => [t, v]
+  | .ptrAssign p v => [p, v]
+  | .indexAssign a i v => [a, i, v]
+  | .ret (some e) => [e]
+  | .ret none => []
+  | .loop body => stmtsRoots body
+  | .brk => []
+  | .ite c t (some e) => c :: (stmtsRoots t ++ stmtsRoots e)
+  | .ite c t none => c :: stmtsRoots t
+  | .switch e cases (some d) => e :: (casesRoots cases ++ stmtsRoots d)
+  | .switch e cases none => e :: casesRoots cases
+  | .tswitch _ e cases (some d) => e :: (tcasesRoots cases ++ stmtsRoots d)
+  | .tswitch _ e cases none => e :: tcasesRoots cases
+def stmtsRoots : List GStmt → List GExpr
+  | [] => []
+  | s :: ss => stmtRoots s ++ stmtsRoots ss
+def casesRoots : List GCase → List GExpr
+  | [] => []
+  | .mk v body :: cs => v :: (stmtsRoots body ++ casesRoots cs)
+def tcasesRoots : List GTCase → List GExpr
+  | [] => []
+  | .mk _ body :: cs => stmtsRoots body ++ tcasesRoots cs
+end
+
+def itemRoots : GItem → List GExpr
+  | .func f => stmtsRoots f.body
+  | .structDef _ _ ms => ms.flatMap fun m => stmtsRoots m.body
+  | _ => []
+
 /-! ## adjacency: two tokens printed with nothing between them must not read as one -/
 
 inductive Piece where
